@@ -16,10 +16,10 @@ MENU_T = [(m, ri) for ri in (False, True)
 
 def plan(tier):
     if tier == "quick":
-        regimes = [("dense", 1, 5), ("bounded", 3, 6, 7), ("near", 2, 3)]
+        regimes = [("dense", 1, 5), ("bounded", 3, 6, 7), ("near", 2, 3), ("far", 1, 4)]
         menu = MENU_Q
     else:
-        regimes = [("dense", 1, 7), ("bounded", 3, 8, 11), ("near", 2, 4)]
+        regimes = [("dense", 1, 7), ("bounded", 3, 8, 11), ("near", 2, 4), ("far", 1, 6)]
         menu = MENU_T
     desc, total = pairs.describe_regimes(regimes, 2)
     return {
